@@ -6,13 +6,17 @@
       (pandas: ddof = 1; per column for frames, over the whole Series for steady-state data) and
       the ORDER in which data and prediction are handed to the loss function (a regenerated fact);
     - the three residual functions: the settings' model is SHARED and MUTATED by every call
-      ([update_variables y0], then [update_parameter] for the routed parameter names, then
+      ([update_variables y0] -- a BATCH editor whose treatment of an unknown name is a regenerated fact:
+      since /repo 037a1c8 all names are validated before anything is written --, then [update_parameter] for the routed parameter names, then
       [update_variable] for the routed variable names -- the order is a regenerated fact), then the
       simulation, then the selection of the data's columns, then [_Settings.loss]; a failed
       simulation gives [+inf]; Python exceptions ([KeyError], [ValueError]) are outcomes;
-    - the three fit wrappers: optional deep copy FIRST, routing of the names of [p0] to parameters /
-      variables, the minimiser, the packing of its answer into [Fit];
-    - [LocalScipyMinimizer.__call__]: name <-> position packing, default bounds, success branch.
+    - the three fit wrappers: the statements in front of the copy guard (a regenerated fact: none in the
+      shipped code) run on the CALLER's object, then the optional deep copy, routing of the names of [p0]
+      to parameters / variables, the minimiser, the packing of its answer into [Fit];
+    - [LocalScipyMinimizer.__call__]: name <-> position packing, the bounds list handed to the
+      positional optimiser ([bounds.get(name, default) for name in p0]: a function from parameter NAME
+      to interval, aligned with x0 by name), success branch.
 
     External behaviour enters as arguments: the minimiser is an arbitrary STRATEGY TREE ([strat]:
     ask the residual at a candidate, continue with the observed loss, eventually answer), so the
@@ -32,6 +36,10 @@ Inductive arg_order := DataFirst | PredFirst | ArgsUnknown.
 Inductive upd_phase := UpdY0 | UpdPars | UpdVars.
 Inductive select_axis := SelDataIndex | SelDataColumns | SelUnknown.
 Inductive fail_value := FailInf | FailUnknown.
+(** how the BATCH editors [Model.update_variables] / [Model.update_parameters] treat an unknown name:
+    a plain fold of the single-item editor (entries before the unknown name are written, then KeyError) /
+    all names validated first (KeyError before anything is written) / unrecognised body *)
+Inductive batch_mode := BatchFold | BatchValidated | BatchUnknown.
 Record residual_facts := mkResidualFacts {
   rf_order : list upd_phase;      (* update phases in source order *)
   rf_select : select_axis;        (* which axis of the data names the predicted columns *)
@@ -45,13 +53,17 @@ Record wrapper_facts := mkWrapperFacts {
   wf_routing : bool;              (* p_names / v_names comprehensions + _Settings construction *)
   wf_pack : bool;                 (* OptimisationState -> Fit(model, best_pars, loss) / error passthrough *)
   wf_default_rmse : bool;
-  wf_default_residual : bool }.
+  wf_default_residual : bool;
+  wf_pre_copy : list upd_phase }. (* updates applied to the CALLER's object in front of the copy guard
+                                     (none in the shipped code; [UpdY0] = an early [model.update_variables(y0)]) *)
 Record fit_facts := mkFitFacts {
   ff_args_unscaled : arg_order; ff_args_scaled : arg_order; ff_scale_shape : bool;
   ff_res_steady : residual_facts; ff_res_tc : residual_facts; ff_res_proto : residual_facts;
   ff_wr_steady : wrapper_facts; ff_wr_tc : wrapper_facts; ff_wr_proto : wrapper_facts;
   ff_bound_lo : Q; ff_bound_hi : Q;
-  ff_scipy_call : bool; ff_scipy_pack : bool; ff_pack_updates : bool }.
+  ff_scipy_call : bool; ff_scipy_pack : bool; ff_pack_updates : bool;
+  ff_batch_vars : batch_mode;     (* Model.update_variables  (used for y0) *)
+  ff_batch_pars : batch_mode }.   (* Model.update_parameters (used by the protocol simulation, one call per step) *)
 
 Inductive fit_kind := KSteady | KTimeCourse | KProtocol.
 Definition res_facts (ff : fit_facts) (k : fit_kind) : residual_facts :=
@@ -87,6 +99,15 @@ Fixpoint seq_update {A} (names : list name) (valof : name -> option A) (l : list
       | None => (l, Some ErrKey)
       | Some v => if memN n (keys l) then seq_update r valof (set_key n v l) else (l, Some ErrKey)
       end
+  end.
+
+(** [container.update_<batch>(dict)] under the three shapes of the batch editor *)
+Definition batch_update {A} (mode : batch_mode) (names : list name) (valof : name -> option A) (l : list (name * A))
+  : list (name * A) * option err :=
+  match mode with
+  | BatchFold => seq_update names valof l
+  | BatchValidated => if forallb (fun n => memN n (keys l)) names then seq_update names valof l else (l, Some ErrKey)
+  | BatchUnknown => (l, Some ErrUnmodelled)
   end.
 
 Section Fit.
@@ -178,21 +199,21 @@ Section Fit.
 
   Inductive rloss := RVal (v : T) | RInf | RErr (e : err).
 
-  Definition apply_phase (S : settings) (u : list (name * T)) (ph : upd_phase) (st : mstate) : mstate * option err :=
+  Definition apply_phase (ff : fit_facts) (S : settings) (u : list (name * T)) (ph : upd_phase) (st : mstate) : mstate * option err :=
     match ph with
     | UpdY0 =>
         match s_y0 S with
         | None => (st, None)
-        | Some y0 => let '(v, e) := seq_update (keys y0) (fun n => lookup n y0) (ms_vars st) in (mkState (ms_pars st) v, e)
+        | Some y0 => let '(v, e) := batch_update (ff_batch_vars ff) (keys y0) (fun n => lookup n y0) (ms_vars st) in (mkState (ms_pars st) v, e)
         end
     | UpdPars => let '(p, e) := seq_update (s_p_names S) (fun n => lookup n u) (ms_pars st) in (mkState p (ms_vars st), e)
     | UpdVars => let '(v, e) := seq_update (s_v_names S) (fun n => lookup n u) (ms_vars st) in (mkState (ms_pars st) v, e)
     end.
-  Fixpoint apply_phases (S : settings) (u : list (name * T)) (phs : list upd_phase) (st : mstate) : mstate * option err :=
+  Fixpoint apply_phases (ff : fit_facts) (S : settings) (u : list (name * T)) (phs : list upd_phase) (st : mstate) : mstate * option err :=
     match phs with
     | [] => (st, None)
-    | ph :: r => match apply_phase S u ph st with
-                 | (st', None) => apply_phases S u r st'
+    | ph :: r => match apply_phase ff S u ph st with
+                 | (st', None) => apply_phases ff S u r st'
                  | (st', Some e) => (st', Some e)
                  end
     end.
@@ -253,13 +274,13 @@ Section Fit.
     | [] => [x]
     | y :: r => if Qeq_bool x y then l else if Qltb x y then x :: l else y :: insert_sorted x r
     end.
-  Fixpoint proto_steps (S : settings) (steps : list (Q * list T)) (full : list Q)
+  Fixpoint proto_steps (ff : fit_facts) (S : settings) (steps : list (Q * list T)) (full : list Q)
            (st : mstate) (t : Q) (y : list (name * T)) (acc : list (Q * list (name * T)))
     : mstate * sim_out :=
     match steps with
     | [] => (st, SimRows (rev acc))
     | (t_end, vals) :: r =>
-        let '(p, e) := seq_update (s_proto_names S) (fun n => lookup n (combine (s_proto_names S) vals)) (ms_pars st) in
+        let '(p, e) := batch_update (ff_batch_pars ff) (s_proto_names S) (fun n => lookup n (combine (s_proto_names S) vals)) (ms_pars st) in
         let st' := mkState p (ms_vars st) in
         match e with
         | Some e => (st', SimErr e)
@@ -279,28 +300,28 @@ Section Fit.
                                      | [] => match combined_row p (s_rxns S) y with Some r0 => [(t, r0)] | None => [] end
                                      | _ => [] end in
                         match last rows (t, y) with
-                        | (t', y') => proto_steps S r full st' t' y' (rev rows' ++ rev first ++ acc)
+                        | (t', y') => proto_steps ff S r full st' t' y' (rev rows' ++ rev first ++ acc)
                         end
                     end
                 end
             end
         end
     end.
-  Definition sim_protocol (S : settings) (st : mstate) : mstate * sim_out :=
+  Definition sim_protocol (ff : fit_facts) (S : settings) (st : mstate) : mstate * sim_out :=
     match s_proto S, last_q (s_times S) with
     | [], _ | _, None => (st, SimErr ErrUnmodelled)
     | steps, Some tl =>
         if Qleb tl 0 then (st, SimErr ErrValue) else
         if negb (sorted_from 0 (map fst steps)) then (st, SimErr ErrUnmodelled) else
         let full := fold_right insert_sorted [] (map fst steps ++ s_times S) in
-        proto_steps S steps full st 0 (ms_vars st) []
+        proto_steps ff S steps full st 0 (ms_vars st) []
     end.
 
-  Definition simulate (k : fit_kind) (S : settings) (st : mstate) : mstate * sim_out :=
+  Definition simulate (ff : fit_facts) (k : fit_kind) (S : settings) (st : mstate) : mstate * sim_out :=
     match k with
     | KSteady => sim_steady S st
     | KTimeCourse => sim_time_course S st
-    | KProtocol => sim_protocol S st
+    | KProtocol => sim_protocol ff S st
     end.
 
   Definition qlist_eqb (a b : list Q) : bool := list_eqb Qeq_bool a b.
@@ -343,9 +364,9 @@ Section Fit.
 
   Definition residual_step (ff : fit_facts) (k : fit_kind) (S : settings) (st : mstate) (u : list (name * T))
     : mstate * rloss :=
-    match apply_phases S u (rf_order (res_facts ff k)) st with
+    match apply_phases ff S u (rf_order (res_facts ff k)) st with
     | (st1, Some e) => (st1, RErr e)
-    | (st1, None) => let '(st2, out) := simulate k S st1 in (st2, score ff k S out)
+    | (st1, None) => let '(st2, out) := simulate ff k S st1 in (st2, score ff k S out)
     end.
 
   (** *** minimisers as strategy trees *)
@@ -380,20 +401,26 @@ Section Fit.
                (filter (fun n => memN n (keys (ms_vars caller))) (keys p0))
                (s_scale S) (s_proto_names S) (s_proto S) (s_loss S).
 
-  (** returns (the CALLER's model afterwards, outcome) *)
+  (** returns (the CALLER's model afterwards, outcome).  Statements in front of the copy guard
+      ([wf_pre_copy], with [p0] as the update dictionary) act on the caller's own object; an exception
+      there leaves the wrapper before anything else happens *)
   Definition fit (ff : fit_facts) (k : fit_kind) (S : settings) (as_deepcopy : option bool)
              (caller : mstate) (p0 : list (name * T)) (minimiser : list (name * T) -> strat)
     : mstate * fit_outcome :=
     let wf := wr_facts ff k in
     let copy := wf_copy_guard wf && match as_deepcopy with Some b => b | None => wf_copy_default wf end in
     let S' := route S caller p0 in
-    let '(st', r) := run_strat (residual_step ff k S') (minimiser p0) caller in
-    (if copy then caller else st',
-     match r with
-     | RunDone (Some (x, v)) => FitOk st' x v
-     | RunDone None => FitFailed
-     | RunRaised e => FitRaised e
-     end).
+    match apply_phases ff S' p0 (wf_pre_copy wf) caller with
+    | (caller1, Some e) => (caller1, FitRaised e)
+    | (caller1, None) =>
+        let '(st', r) := run_strat (residual_step ff k S') (minimiser p0) caller1 in
+        (if copy then caller1 else st',
+         match r with
+         | RunDone (Some (x, v)) => FitOk st' x v
+         | RunDone None => FitFailed
+         | RunRaised e => FitRaised e
+         end)
+    end.
 
   (** *** [LocalScipyMinimizer.__call__] around an arbitrary positional optimiser *)
   Inductive vstrat :=
@@ -409,14 +436,25 @@ Section Fit.
         if ok then (if Nat.eqb (length x) (length names) then Done (Some (combine names x, f)) else Raise ErrValue)
         else Done None
     end.
+  (** the interval of ONE parameter: the user's entry for that NAME, else the default *)
+  Definition bound_for (ff : fit_facts) (bounds : list (name * (T * T))) (n : name) : T * T :=
+    match lookup n bounds with
+    | Some b => b
+    | None => (o_ofQ O (ff_bound_lo ff), o_ofQ O (ff_bound_hi ff))
+    end.
+  (** [[bounds.get(name, default) for name in p0]]: position i carries the interval of the i-th NAME of p0 *)
+  Definition aligned_bounds (ff : fit_facts) (bounds : list (name * (T * T))) (names : list name) : list (T * T) :=
+    map (bound_for ff bounds) names.
+  (** projection of a point into a box, coordinate by coordinate (what a box-constrained optimiser does
+      with its start; [clip1] is the carrier's projection of one value into one interval) *)
+  Definition clip_box (clip1 : T * T -> T -> T) (bl : list (T * T)) (x : list T) : list T :=
+    map (fun bv => clip1 (fst bv) (snd bv)) (combine bl x).
   Definition local_scipy_minimizer (ff : fit_facts)
              (scipy_minimize : list T -> list (T * T) -> vstrat)
              (bounds : list (name * (T * T))) (p0 : list (name * T)) : strat :=
-    lift_vstrat (keys p0)
-      (scipy_minimize (map snd p0)
-         (map (fun n => match lookup n bounds with
-                        | Some b => b
-                        | None => (o_ofQ O (ff_bound_lo ff), o_ofQ O (ff_bound_hi ff)) end) (keys p0))).
+    if ff_scipy_call ff && ff_scipy_pack ff && ff_pack_updates ff
+    then lift_vstrat (keys p0) (scipy_minimize (map snd p0) (aligned_bounds ff bounds (keys p0)))
+    else Raise ErrUnmodelled.                                   (* unrecognised call shape: not modelled *)
 End Fit.
 
 Arguments RVal {T}. Arguments RInf {T}. Arguments RErr {T}.
